@@ -135,8 +135,10 @@ def _refine_case(case, ctx):
             bps0 = sorted(set(U0[p:n0 + 1]))
             exp_bps = _bisect(bps0, vec[a])
             got_bps = sorted(set(U1))
-            ok &= ctx.check('C05.refine.breakpoints', got_bps == exp_bps, rc, fa, exp_bps, got_bps,
-                            'distinct knots = d-fold bisection of the original breakpoints')
+            # midpoints of non-dyadic knots are rounded by the library's float arithmetic: equal within rounding, same count
+            bps_ok = len(got_bps) == len(exp_bps) and all(abs(g - e) <= 1e-12 * max(1, abs(e)) for g, e in zip(got_bps, exp_bps))
+            ok &= ctx.check('C05.refine.breakpoints', bps_ok, rc, fa, [float(x) for x in exp_bps], [float(x) for x in got_bps],
+                            'distinct knots = d-fold bisection of the original breakpoints (within float rounding)')
             mult_ok = all(R.multiplicity(U1, b) == (p + 1 if b in (exp_bps[0], exp_bps[-1]) else p) for b in got_bps)
             ok &= ctx.check('C05.refine.multiplicity', mult_ok and all(x <= y for x, y in zip(U1, U1[1:])), rc, fa,
                             'sorted, interior multiplicity p, ends p+1', snap['kvs'][a])
@@ -181,7 +183,13 @@ def _helper_requests(p, kv, tier):
     interior = sorted(set(k for k in kv if lo < k < hi))
     dens = [1, 2] if tier == 'quick' else [1, 2, 3]
     out = []
-    for kl in _subsets(interior):
+    if len(interior) > 4:
+        # long knot vectors (tall slice): no knot, every knot, each single knot, the two halves, every other knot
+        half = len(interior) // 2
+        kls = [[], list(interior)] + [[t] for t in interior] + [interior[:half], interior[half:], interior[::2], interior[1::2]]
+    else:
+        kls = _subsets(interior)
+    for kl in kls:
         for add in _subsets(ADD):
             if not kl and not add:
                 continue
